@@ -257,9 +257,13 @@ EXTRA9 = {'C08': ' A refused quiet assignment must leave every hook alive.',
           'C16': ' Link values replaced by equal but distinct objects; a final segment selected by metadata (+lvl, falsy values).',
           'C19': ' Method forms of the set / list / dict updates; a new (also mutual) synchronisation whose initial copy fails; the sync records are part of the compared state.',
           'C20': ' Non-list one-way partners (taps) of the list traits, attached before or after the list partners.'}
+EXTRA10 = {'C17': ' Adapting traits as alternatives of an Either.',
+           'C18': ' refgrid assigns the library sentinels Undefined / Uninitialized; stage cycles: delegation cycles through 1-4 objects end in Python exceptions for every kind of access.'}
 
 
 def main():
+    for pid, extra in EXTRA10.items():
+        EXTRA9[pid] = EXTRA9.get(pid, "") + extra
     for pid, extra in EXTRA9.items():
         EXTRA8[pid] = EXTRA8.get(pid, "") + extra
     for pid, extra in EXTRA8.items():
